@@ -9,7 +9,8 @@
 (*          suffix |-> <<helper symbols>>,                                  *)
 (*          table |-> << [sym, tok, alts |-> <<indices into pm[sym]>>] >>,  *)
 (*          runs |-> << [toks |-> <<token names>>, res |-> "tree" | "ParsingError",  *)
-(*                       tree, events |-> << [k, st |-> <<[sym, start, cur, ai, nv]>>] >>] >>] *)
+(*                       tree, events |-> << [k, st |-> <<[sym, start, cur, ai, nv]>>] >>,     *)
+(*                       err |-> [sym, toks, alts] content of the ParsingError ("" / <<>> if none)] >>] *)
 (* Machine actions: Expand, MatchTerminal, Complete, Rollback, Fail; one   *)
 (* frame = [sym, start, cur, alts, ai, vals].  The machine logs the same   *)
 (* stack snapshots the real parser exposes through its debug hooks.        *)
@@ -17,15 +18,20 @@
 (* come from the A-spec judges):                                           *)
 (*   TABLE   real table = predict sets of the declarative FIRST/FOLLOW on pm *)
 (*   FACTOR  un-factoring pm gives the user's alternatives in order         *)
-(*   RUN     machine outcome, tree and event log = the real ones; and the   *)
-(*           machine's own result satisfies the A-spec (ValidParse)         *)
+(*   RUN     machine outcome, tree and event log = the real ones; the       *)
+(*           machine's own result satisfies the A-spec (ValidParse); the    *)
+(*           content of ParsingError (symbol, following tokens, attempted   *)
+(*           productions of the frame that was on top when the parser got   *)
+(*           furthest for the first time - register "longest") is the same  *)
 (***************************************************************************)
 EXTENDS Naturals, Sequences, FiniteSets, TLC, Json, IOUtils, LLGrammar
 Cases == ndJsonDeserialize(IOEnv.CASES)
 
 StartSym == "$START$"
-VARIABLES tid, ri, stack, phase, result, log, steps
-vars == <<tid, ri, stack, phase, result, log, steps>>
+VARIABLES tid, ri, stack, phase, result, log, steps,
+          longest     \* [set, cur, sym, start, alts]: top frame at the first failure that reached token position cur
+vars == <<tid, ri, stack, phase, result, log, steps, longest>>
+NoLongest == [set |-> FALSE, cur |-> 0, sym |-> "", start |-> 0, alts |-> <<>>]
 C == Cases[tid]
 ToSet(s) == { s[i] : i \in 1 .. Len(s) }
 Terms == ToSet(C.g.terms) \cup {EndTok}
@@ -62,15 +68,16 @@ Snap == [i \in 1 .. Len(stack) |-> [sym |-> stack[i].sym, start |-> stack[i].sta
 Ev(k) == [k |-> k, st |-> Snap]
 
 Init == /\ tid \in 1 .. Len(Cases) /\ ri = 0 /\ stack = <<>> /\ phase = "static" /\ result = [n |-> "none", k |-> <<>>]
-        /\ log = <<>> /\ steps = 0
+        /\ log = <<>> /\ steps = 0 /\ longest = NoLongest
 Static == /\ phase = "static"
           /\ PrintT(<<IF TableOK THEN "TABLE-OK" ELSE "TABLE-DIFF", tid>>)
           /\ PrintT(<<IF FactorOK THEN "FACTOR-OK" ELSE "FACTOR-DIFF", tid>>)
-          /\ phase' = "next" /\ UNCHANGED <<tid, ri, stack, result, log, steps>>
+          /\ phase' = "next" /\ UNCHANGED <<tid, ri, stack, result, log, steps, longest>>
 StartRun == /\ phase = "next" /\ ri < Len(C.runs)
             /\ ri' = ri + 1 /\ phase' = "run" /\ steps' = 0
             /\ stack' = << Frame(StartSym, 0, <<1>>) >>
             /\ log' = << [k |-> "cur", st |-> << [sym |-> StartSym, start |-> 0, cur |-> 0, ai |-> 0, nv |-> 0] >>] >>
+            /\ longest' = NoLongest
             /\ UNCHANGED <<tid, result>>
 Top == stack[Len(stack)]
 AtEnd == Len(Top.vals) = Len(Prod(Top))
@@ -92,18 +99,22 @@ Complete ==
           THEN /\ phase' = "done" /\ result' = node.k[1] /\ stack' = rest
           ELSE /\ stack' = [rest EXCEPT ![Len(rest)].vals = Append(@, node), ![Len(rest)].cur = f.cur]
                /\ UNCHANGED <<phase, result>>
-  /\ steps' = steps + 1 /\ UNCHANGED <<tid, ri>>
+  /\ steps' = steps + 1 /\ UNCHANGED <<tid, ri, longest>>
 MatchTerminal ==
   /\ Run /\ ~AtEnd /\ NextSym \in Terms /\ NextTok = NextSym
   /\ stack' = [stack EXCEPT ![Len(stack)].vals = Append(@, [n |-> NextSym, v |-> NextSym]), ![Len(stack)].cur = @ + 1]
-  /\ steps' = steps + 1 /\ UNCHANGED <<tid, ri, phase, result, log>>
+  /\ steps' = steps + 1 /\ UNCHANGED <<tid, ri, phase, result, log, longest>>
 Expand ==
   /\ Run /\ ~AtEnd /\ NextSym \notin Terms /\ TableRow(NextSym, NextTok) # <<>>
   /\ stack' = Append(stack, Frame(NextSym, Top.cur, TableRow(NextSym, NextTok)))
   /\ log' = Append(log, [k |-> "cur", st |-> Snap \o << [sym |-> NextSym, start |-> Top.cur, cur |-> Top.cur, ai |-> 0, nv |-> 0] >>])
-  /\ steps' = steps + 1 /\ UNCHANGED <<tid, ri, phase, result>>
+  /\ steps' = steps + 1 /\ UNCHANGED <<tid, ri, phase, result, longest>>
 Stuck == ~AtEnd /\ ((NextSym \in Terms /\ NextTok # NextSym) \/ (NextSym \notin Terms /\ TableRow(NextSym, NextTok) = <<>>))
 CanRetry(i) == stack[i].ai < Len(stack[i].alts)
+(* on every failure: remember the top frame if the parser never failed this far before *)
+Remember == IF ~longest.set \/ longest.cur < Top.cur
+              THEN [set |-> TRUE, cur |-> Top.cur, sym |-> Top.sym, start |-> Top.start, alts |-> Top.alts]
+              ELSE longest
 Rollback ==
   /\ Run /\ Stuck /\ \E i \in 1 .. Len(stack) : CanRetry(i)
   /\ LET r == CHOOSE i \in 1 .. Len(stack) : CanRetry(i) /\ \A j \in (i + 1) .. Len(stack) : ~CanRetry(j)
@@ -113,10 +124,12 @@ Rollback ==
      /\ log' = log \o << Ev("res"),
                          [k |-> "cur", st |-> [i \in 1 .. r |-> [sym |-> st2[i].sym, start |-> st2[i].start, cur |-> st2[i].cur,
                                                                  ai |-> st2[i].ai - 1, nv |-> Len(st2[i].vals)]]] >>
+  /\ longest' = Remember
   /\ steps' = steps + 1 /\ UNCHANGED <<tid, ri, phase, result>>
 Fail ==
   /\ Run /\ Stuck /\ ~\E i \in 1 .. Len(stack) : CanRetry(i)
   /\ log' = Append(log, Ev("res")) /\ phase' = "failed"
+  /\ longest' = Remember
   /\ steps' = steps + 1 /\ UNCHANGED <<tid, ri, stack, result>>
 
 (* ---------------- per run verdict ---------------- *)
@@ -128,15 +141,22 @@ FirstDiff == IF \E i \in 1 .. Len(log) : i > Len(C.runs[ri].events) \/ log[i] # 
                THEN CHOOSE i \in 1 .. Len(log) : (i > Len(C.runs[ri].events) \/ log[i] # C.runs[ri].events[i])
                                                   /\ \A j \in 1 .. (i - 1) : j <= Len(C.runs[ri].events) /\ log[j] = C.runs[ri].events[j]
                ELSE IF Len(log) < Len(C.runs[ri].events) THEN Len(log) + 1 ELSE 0
+(* what ParsingError must say: the symbol of the remembered frame, up to 5 tokens from where that frame started, *)
+(* the productions the frame could try                                                                            *)
+ErrRec == [sym |-> longest.sym,
+           toks |-> SubSeq(Toks, longest.start + 1, IF longest.start + 5 < Len(Toks) THEN longest.start + 5 ELSE Len(Toks)),
+           alts |-> IF longest.sym = StartSym THEN << <<C.g.start, EndTok>> >>
+                    ELSE [i \in 1 .. Len(longest.alts) |-> PM[longest.sym][longest.alts[i]]]]
 Verdict ==
   /\ phase \in {"done", "failed"}
   /\ LET R == C.runs[ri]
+         errsame == phase = "failed" => ErrRec = R.err
          same == (R.res = "tree") = (phase = "done")
          tree == phase = "done" => Names(result) = Names(R.tree)
          aspec == phase = "done" => ValidParse(UG, TokRecs, result) IN
      PrintT(<< IF ~aspec THEN "RUN-MACHINE-BREAKS-ASPEC" ELSE IF ~same THEN "RUN-OUTCOME-DIFF" ELSE IF ~tree THEN "RUN-TREE-DIFF"
-               ELSE IF FirstDiff # 0 THEN "RUN-EVENTS-DIFF" ELSE "RUN-OK", tid, ri, FirstDiff, steps >>)
-  /\ phase' = "next" /\ UNCHANGED <<tid, ri, stack, result, log, steps>>
+               ELSE IF FirstDiff # 0 THEN "RUN-EVENTS-DIFF" ELSE IF ~errsame THEN "RUN-ERROR-DIFF" ELSE "RUN-OK", tid, ri, FirstDiff, steps >>)
+  /\ phase' = "next" /\ UNCHANGED <<tid, ri, stack, result, log, steps, longest>>
 Next == Static \/ StartRun \/ Complete \/ MatchTerminal \/ Expand \/ Rollback \/ Fail \/ Verdict
 Spec == Init /\ [][Next]_vars /\ WF_vars(Next)
 
@@ -145,6 +165,8 @@ Spec == Init /\ [][Next]_vars /\ WF_vars(Next)
 StackBound == phase = "run" => Len(stack) <= (Cardinality(DOMAIN PM) + 1) * (Len(Toks) + 1) + 1
 (* every frame starts where its parent stands; token cursors never run past the end token *)
 FramesChained == phase = "run" => \A i \in 2 .. Len(stack) : stack[i].start = stack[i - 1].cur /\ stack[i].cur <= Len(Toks)
+(* the remembered failure lies inside the text and its frame started no later than it failed *)
+LongestInText == longest.set => longest.start <= longest.cur /\ longest.cur < Len(Toks)
 (* every run ends *)
 Terminates == [](phase = "run" => <>(phase # "run"))
 =============================================================================
